@@ -82,6 +82,18 @@ Proof.
   unfold T2_map. reflexivity.
 Qed.
 
+(* the dense field on ANY grid h, when the matrix is re-expressed in h's cube, describes the world map *)
+Lemma disp_reexpressed_describes_world_map (f : form) (a : nat -> nat -> K) (ac ac' : bool) (g h : gridf) (X : list K) :
+  gwf D g -> gwf D h -> length X = D ->
+  disp_reexpressed D f (tab D (fcols D f) a) ac g ac' h X
+  = field_of_world_map D (world_map D f (tab D (fcols D f) a) ac g) ac' h X.
+Proof.
+  intros Hg Hh HX. unfold disp_reexpressed, field_of_world_map. f_equal.
+  change (view_points2 D f (tab D (fcols D f) a) ac g (cubeax ac') h (cubeax ac') h X
+          = g_from_world D (cubeax ac') h (world_map D f (tab D (fcols D f) a) ac g (g_to_world D (cubeax ac') h X))).
+  apply points2_is_world_map; auto.
+Qed.
+
 (* own grid on both sides (same-grid branch of Grid.transform_points), e.g. points(x, axes=WORLD) *)
 Lemma points_is_world_map (f : form) (a : nat -> nat -> K) (ac : bool) (g : gridf) (A B : axes) (X : list K) :
   gwf D g -> length X = D ->
